@@ -267,8 +267,8 @@ func (mc *MetricsCollector) updateAverageResponseTime(newResponseTime float64) {
 func (mc *MetricsCollector) GetMetrics() *Metrics {
 	mc.metrics.mutex.RLock()
 
-	// Update uptime (fast string operation)
-	mc.metrics.Uptime = time.Since(mc.metrics.StartTime).String()
+	// Uptime is computed for the copy only: the shared struct is only read under the read lock
+	uptime := time.Since(mc.metrics.StartTime).String()
 
 	// Get pooled metrics object to reduce allocations
 	metricsCopy := mc.metricsPool.Get().(*Metrics)
@@ -293,7 +293,7 @@ func (mc *MetricsCollector) GetMetrics() *Metrics {
 
 	// Copy non-atomic fields
 	metricsCopy.StartTime = mc.metrics.StartTime
-	metricsCopy.Uptime = mc.metrics.Uptime
+	metricsCopy.Uptime = uptime
 
 	// Copy backend metrics using pooled objects
 	for name, backend := range mc.metrics.BackendMetrics {
